@@ -10,34 +10,6 @@ recogniser `Env`, configuration, cleaner state and call.
 -/
 namespace IV.CleanState
 
-/-- results aligned with the input lines, state threading explicit: line `i` is cleaned in the state left
-behind by the lines BELOW it (`i+1 …`), exactly as the bottom-up loop does -/
-def runUp (E : Env) (cfg : Cfg) (call : Call) : LSt → List Str → LSt × List (Option Str)
-  | s, [] => (s, [])
-  | s, l :: ls =>
-    let r := runUp E cfg call s ls
-    let x := cleanLine E cfg call r.1 l
-    (x.1, x.2 :: r.2)
-
-theorem lineLoop_append (E : Env) (cfg : Cfg) (call : Call) (a b : List Str) (s : LSt) (acc : List Str) :
-    lineLoop E cfg call s acc (a ++ b) =
-      lineLoop E cfg call (lineLoop E cfg call s acc a).1 (lineLoop E cfg call s acc a).2 b := by
-  induction a generalizing s acc with
-  | nil => rfl
-  | cons x xs ih => simp only [List.cons_append, lineLoop]; exact ih _ _
-
-theorem lineLoop_reverse (E : Env) (cfg : Cfg) (call : Call) (ls : List Str) (s : LSt) :
-    lineLoop E cfg call s [] ls.reverse =
-      ((runUp E cfg call s ls).1, ((runUp E cfg call s ls).2.filterMap id).reverse) := by
-  induction ls with
-  | nil => rfl
-  | cons l ls ih =>
-    rw [List.reverse_cons, lineLoop_append, ih]
-    simp only [lineLoop, runUp]
-    cases (cleanLine E cfg call (runUp E cfg call s ls).1 l).2 with
-    | none => simp
-    | some x => simp
-
 /-- **state threading made explicit**: `clean_content` = reverse ∘ (filterMap with state, bottom-up) ∘ reverse,
 i.e. the non-`None` entries of `runUp` in input order, or `[]` when none of them is non-blank -/
 theorem cleanContent_eq_runUp (E : Env) (cfg : Cfg) (st : St) (call : Call) :
@@ -50,46 +22,6 @@ theorem cleanContent_eq_runUp (E : Env) (cfg : Cfg) (st : St) (call : Call) :
 /-- the cleaner state in which input line `i` is cleaned -/
 def stateBefore (E : Env) (cfg : Cfg) (st : St) (call : Call) (i : Nat) : LSt :=
   (runUp E cfg call (st, call.allowlist.getD []) (call.lines.drop (i + 1))).1
-
-theorem runUp_get (E : Env) (cfg : Cfg) (call : Call) (s : LSt) (ls : List Str) (i : Nat) :
-    (runUp E cfg call s ls).2[i]? =
-      (ls[i]?).map (fun l => (cleanLine E cfg call (runUp E cfg call s (ls.drop (i + 1))).1 l).2) := by
-  induction ls generalizing i with
-  | nil => simp [runUp]
-  | cons l ls ih =>
-    cases i with
-    | zero => simp [runUp]
-    | succ n => simp only [runUp, List.getElem?_cons_succ, List.drop_succ_cons]; exact ih n
-
-theorem filterMap_indices {α : Type} (rs : List (Option α)) :
-    ∃ idx : List Nat, idx.Pairwise (· < ·) ∧ (∀ i ∈ idx, i < rs.length) ∧
-      idx.map (fun i => (rs[i]?).bind id) = (rs.filterMap id).map some := by
-  induction rs with
-  | nil => exact ⟨[], List.Pairwise.nil, by simp, by simp⟩
-  | cons r rs ih =>
-    obtain ⟨idx, hp, hb, hm⟩ := ih
-    have hp' : (idx.map (· + 1)).Pairwise (· < ·) := List.Pairwise.map _ (fun a b h => by omega) hp
-    have hm' : (idx.map (· + 1)).map (fun i => ((r :: rs)[i]?).bind id) = (rs.filterMap id).map some := by
-      rw [List.map_map, ← hm]; apply List.map_congr_left; intro a _; simp
-    have hb' : ∀ i ∈ idx.map (· + 1), i < (r :: rs).length := by
-      intro i hi
-      obtain ⟨a, ha, rfl⟩ := List.mem_map.mp hi
-      have := hb a ha; simp; omega
-    cases r with
-    | none => exact ⟨idx.map (· + 1), hp', hb', by simpa using hm'⟩
-    | some x =>
-      refine ⟨0 :: idx.map (· + 1), ?_, ?_, ?_⟩
-      · rw [List.pairwise_cons]
-        refine ⟨?_, hp'⟩
-        intro a ha
-        obtain ⟨b, _, rfl⟩ := List.mem_map.mp ha
-        omega
-      · intro i hi
-        rcases List.mem_cons.mp hi with rfl | h
-        · simp
-        · exact hb' i h
-      · simp only [List.map_cons]
-        rw [hm']; simp
 
 /-- **clean_monotone** — there is a STRICTLY INCREASING list of input indices, one per output line, such that
 output line `j` is exactly what `_clean_line` returns for input line `idx[j]` in the state the bottom-up
@@ -201,6 +133,11 @@ theorem empty_not_stored (E : Env) (cfg : Cfg) (st : St) (p : Provider) (file : 
   · intro hne hc hw hcl
     have : p.content.isEmpty = false := by cases hp : p.content <;> simp_all
     simp [providerWrite, providerClean, this, hh, hc, hw, hcl]
+
+example : (match (providerWrite ⟨fun _ => [], fun _ => [], fun _ => [], fun _ => false, fun _ => [], fun _ => false,
+    fun _ => [], id, {}⟩ ⟨"h.d".toList, false, false, false, false, [], ["x".toList]⟩ {}
+    ⟨true, true, ["ax".toList, [], "x".toList], ⟨[], false, none, []⟩⟩ none).2 with
+    | (.error .emptyAfterCleaning, none) => true | _ => false) = true := by decide
 
 /-- and what IS stored under a host context after cleaning has at least one non-blank line -/
 theorem stored_has_nonblank (E : Env) (cfg : Cfg) (st : St) (p : Provider) (file : Option Str) (st' : St)
